@@ -2,6 +2,7 @@
 From Coq Require Import List ZArith NArith Bool Reals.
 Import ListNotations.
 From GS Require Import Num NumR EventLoop Kernel Sim.
+From GS Require Import NumZ Sim ExampleKit.
 From GS.Proofs Require Import Aux SimP SimP3 SimR.
 
 Section C09.
@@ -47,6 +48,15 @@ End C09.
 Theorem C09_gate_is_euclidean (s e : vec3 R) (r : R) :
   (0 <= r)%R -> (fleb R_ops (sqdist R_ops s e) (fsq R_ops r) = true <-> (dist3 s e <= r)%R).
 Proof. apply in_range_iff_euclid. Qed.
+
+(** Non-vacuity: range 5, receivers at distance exactly 5 (boundary: delivered) and 10 (not). *)
+Definition ex9 (n : nat) (ps : unit) (now : Z) (c : cb Z) : unit * list (action Z) :=
+  match c, n with CbInit, O => (tt, [ABroadcast 8]) | _, _ => (tt, []) end.
+Example C09_example :
+  fst (fst (fst (runx (cfgx [HTimer; HComm] 3 [(0, 0, 0)%Z; (3, 4, 0)%Z; (6, 8, 0)%Z] 5%Z 0%Z 0%Z 1%Z 1%Z [] []) ex9 None None 20))) =
+  [TCb 0 0%Z CbInit; TAct 0 (ABroadcast 8) Ok; TCb 1 0%Z CbInit; TCb 2 0%Z CbInit; TCb 1 0%Z (CbPacket 8);
+   TCb 0 0%Z CbFinish; TCb 1 0%Z CbFinish; TCb 2 0%Z CbFinish].
+Proof. vm_compute. reflexivity. Qed.
 
 Print Assumptions C09_range_gate.
 Print Assumptions C09_delivery_ignores_positions.
